@@ -1,4 +1,5 @@
 import AC.ExecTrace
+import AC.ExecComplete
 /-! # C12 — parallel execution equals sequential execution under every schedule
 
 Model: `P.ExecT` (AC/ExecTrace.lean), the labelled transition system of
@@ -63,6 +64,20 @@ theorem C12_accepts_sound {k L : Nat} {tr : List Event} (h : accepts k L tr = no
 theorem C12_accepted_limit {k L : Nat} {tr : List Event} (h : accepts k L tr = none) :
     ∀ p, p <+: tr → nRun p ≤ nFin p + L :=
   accepted_limit h
+
+/-- **the acceptor is complete**: the observable trace of EVERY execution of the LTS (any interleaving of
+    main and the workers, any completion order) from `init` that ends with main returned is accepted —
+    so a trace recorded from an implementation that behaves like the LTS is never rejected -/
+theorem C12_accepts_complete {k L : Nat} {as : List Act} {s : St} (h : Exec k L (init k) as s)
+    (hret : s.main = .returned) : accepts k L (as.filterMap obs) = none :=
+  accepts_complete h hret
+
+/-- soundness and completeness together: the executable acceptor decides exactly "is the observable
+    trace of a complete execution of the model of `exec.Parallel.Execute`" -/
+theorem C12_accepts_iff {k L : Nat} (tr : List Event) :
+    accepts k L tr = none ↔
+      ∃ as s, Exec k L (init k) as s ∧ as.filterMap obs = tr ∧ s.main = .returned :=
+  accepts_iff tr
 
 /-- non-vacuity: two algorithms, limit 1 — a concrete accepted trace, hence a reachable returned
     state -/
